@@ -118,6 +118,7 @@ type driver struct {
 	leftover  int
 	founds    []found
 	machinery []string
+	unrepro   []string
 	crashes   int
 	wallUs    int64
 }
@@ -432,8 +433,12 @@ func (d *driver) handleCrash(seed uint64, stderr string, extra []string) {
 		}
 		f.replay = d.assembleCrashReplay(seed, dump, trace, f.crash, wo.stderr)
 	} else {
+		// the process died in library code, but not when this seed runs alone in a
+		// fresh process: state carried between runs of one process (a package-level
+		// variable in the library?). Reported as a warning if other violations are
+		// confirmed, as machinery trouble otherwise.
 		d.mu.Lock()
-		d.machinery = append(d.machinery, fmt.Sprintf("crash during seed %d (%s) did not reproduce when re-run alone", seed, sig))
+		d.unrepro = append(d.unrepro, fmt.Sprintf("crash during seed %d (%s) did not reproduce when re-run alone (state shared between runs of one process?)", seed, sig))
 		d.mu.Unlock()
 		return
 	}
@@ -658,7 +663,7 @@ func (d *driver) finish(t0 time.Time, nomin bool) int {
 		fmt.Printf("KNOWN-FINDING: property=%s %s (met in %d runs)\n", d.prop, k, knownHit[k])
 	}
 	nviol := 0
-	var unconfirmed []string
+	unconfirmed := append([]string(nil), d.unrepro...)
 	if code != 2 {
 		os.MkdirAll(filepath.Join(verifDir, "replays"), 0o755)
 		for i, r := range reports {
